@@ -147,6 +147,9 @@ type Enc struct {
 	dryCache        []dryCached
 	recGhost        map[string]bool
 	bseqSeen        map[string]bool
+	writeRef        string          // reference through which the heap write in progress goes ("" = unknown)
+	dryNonLocal     map[string]bool // result of the last loop dry run
+	writeNonLocal   map[string]bool // heap keys written through a reference that was not allocated by this function
 	qscope          [][2]string // quantified variables of the specification expression being evaluated: (symbol, sort)
 }
 
@@ -318,9 +321,31 @@ func (e *Enc) havocUnknown(st *State) {
 	e.writeLog["*"] = true
 }
 
+// localRef: the term denotes an object allocated by the function being encoded (allocRef names them ref!...).
+func localRef(t string) bool { return strings.HasPrefix(t, "|ref!") }
+
+// noteWrite records whether the write in progress may touch an object that existed before the function started.
+func (e *Enc) noteWrite(key string) {
+	if !localRef(e.writeRef) {
+		if e.writeNonLocal == nil {
+			e.writeNonLocal = map[string]bool{}
+		}
+		e.writeNonLocal[key] = true
+	}
+}
+
+// withRef runs f while heap writes are attributed to the object ref.
+func (e *Enc) withRef(ref string, f func()) {
+	saved := e.writeRef
+	e.writeRef = ref
+	f()
+	e.writeRef = saved
+}
+
 func (e *Enc) heapSet(st *State, key, sort, term string) {
 	e.heapSort[key] = sort
 	e.writeLog[key] = true
+	e.noteWrite(key)
 	if len(term) > 60 {
 		n := e.fresh(key, sort)
 		e.assert(eq(n, term))
@@ -335,6 +360,7 @@ func (e *Enc) heapHavoc(st *State, key string) {
 		return
 	}
 	e.writeLog[key] = true
+	e.noteWrite(key)
 	st.heap[key] = e.fresh(key, sort)
 }
 
@@ -424,7 +450,7 @@ func (e *Enc) storeLoc(st *State, l *Loc, v *Val) {
 		} else {
 			t = "(store " + arr + " " + l.Ref + " " + v.L[i].T + ")"
 		}
-		e.heapSet(st, key, sort, t)
+		e.withRef(l.Ref, func() { e.heapSet(st, key, sort, t) })
 	}
 }
 
